@@ -463,9 +463,11 @@ class ExprBuilder(ast.NodeTransformer):
     def visit_UnaryOp(self, node: ast.UnaryOp) -> ast.AST:
         # Desugar negated numeric constants into constants
         match node.op, node.operand:
-            case ast.USub(), ast.Constant(value=float(v) | int(v)) as const:
-                const.value = -v
-                return with_loc(node, const)
+            case ast.USub(), ast.Constant(value=float(v) | int(v)):
+                # Build a new constant instead of negating the existing node in place: the
+                # node may be visited again (it is shared between the two halves of a
+                # desugared chained comparison), which would flip the sign back
+                return with_loc(node, ast.Constant(value=-v))
             case _:
                 return self.generic_visit(node)
 
